@@ -386,7 +386,11 @@ def snake_removal(self, left=False):
                     cup == len(diagram)\
                     or not isinstance(diagram.boxes[cup], Cup)\
                     or left_snake and diagram.offsets[cup] + 1 != wire\
-                    or not left_snake and diagram.offsets[cup] != wire
+                    or not left_snake and diagram.offsets[cup] != wire\
+                    or left_snake and diagram.boxes[cup].dom[:1]\
+                    != diagram.boxes[cap].cod[1:]\
+                    or not left_snake and diagram.boxes[cup].dom[1:]\
+                    != diagram.boxes[cap].cod[:1]
                 if not_yankable:
                     continue
                 return cup, cap, obstructions, left_snake
